@@ -590,13 +590,239 @@ def extract_backend(ctx, sliced, fired):
     fired['backend'] = rw.fired
 
 
+def wrap_derefs(rw, text, ids, fields, minc=1):
+    """Field accesses through block pointers go through the harness's accessors (which check that the pointer is a block of the list and keep the three header fields in typed
+    ghost memory: CBMC cannot dereference a pointer it read back after a loop-contract havoc, and byte-wise access to a block array is out of SAT reach):
+        loads   p->f, p->f->g            ->  LMB_RD(p, f), LMB_RD(LMB_RD(p, f), g)
+        stores  p->f = e;  p->f->g = e;  ->  LMB_WR(p, f, e);  LMB_WR(LMB_RD(p, f), g, e);
+    (p one of `ids`; f, g among `fields`).  Pure re-wrapping: operands, operators and statement order stay as they are.  Stores are behaviour-bearing statements: the rule has
+    minimum count 0, a deleted store simply is not there."""
+    pat = re.compile(r'(?<![\w>.\)])(%s)((?:->(?:%s)\b)+)' % ('|'.join(ids), '|'.join(fields)))
+    n = [0, 0]
+
+    def fn(m):
+        e = m.group(1)
+        for f in re.findall(r'->(\w+)', m.group(2)):
+            e = 'LMB_RD(%s, %s)' % (e, f)
+            n[0] += 1
+        return e
+    text = pat.sub(fn, text)
+    # a load that is the whole left-hand side of an assignment statement is a store
+    out, pos = [], 0
+    for m in re.finditer(r'LMB_RD\(', text):
+        if m.start() < pos:
+            continue
+        k = m.start() - 1
+        while k >= 0 and text[k].isspace():
+            k -= 1
+        if not (k < 0 or text[k] in ';{})' or text[max(0, k - 3):k + 1] == 'else'):
+            continue
+        c = cxx2c.match_close(text, m.end() - 1, '(', ')')
+        am = re.match(r'\s*=(?!=)', text[c + 1:])
+        if not am:
+            continue
+        e = text.find(';', c + 1)
+        args = cxx2c.split_args(text[m.end():c])
+        out.append(text[pos:m.start()])
+        out.append('LMB_WR(%s, %s, %s);' % (', '.join(args[:-1]), args[-1], text[c + 1 + am.end():e].strip()))
+        pos = e + 1
+        n[1] += 1
+    out.append(text[pos:])
+    text = ''.join(out)
+    rw._rec('load p->f -> LMB_RD(p, f)', n[0] - n[1], minc)
+    rw._rec('store p->f = e; -> LMB_WR(p, f, e);', n[1], 0)
+    return text
+
+
+LMB_FIELDS = ['next', 'prev', 'unalignedSize', 'objectSize', 'age', 'backRefIdx', 'pool']
+
+
+def extract_loc(ctx, sliced, fired):
+    """the large-object cache: LargeObjectCache::putList / put / get / sizeInCacheRange, LargeObjectCacheImpl<Props>::putList / get, the unsafe CacheBin operations,
+    the put-list pass of the aggregator's OperationPreprocessor, LocalLOCImpl::put / get / externalCleanup, ExtMemoryPool::mallocLargeObject"""
+    rw = Rewriter('loc')
+    H = cxx2c.strip_comments(load(LO_H))
+    m = re.search(r'static const size_t defaultMaxHugeSize = ([^;]+);', H)
+    if not m:
+        raise ExtractionBreak('large_objects.h: defaultMaxHugeSize changed')
+    out = ['#define defaultMaxHugeSize ((size_t)(%s))' % m.group(1).strip()]
+    rw.fired['class-constant->#define'] = 1
+    s = slice_block(LO_C, r'bool LargeObjectCache::sizeInCacheRange\(size_t size\)')
+    sliced.append('%s:%d LargeObjectCache::sizeInCacheRange' % (LO_C, s.line))
+    t = rw.sub(s.text, r'bool LargeObjectCache::sizeInCacheRange\(size_t size\)', 'static bool LargeObjectCache_sizeInCacheRange(LargeObjectCache *self, size_t size)', 1, 1, name='sig')
+    t = rw.sub(t, r'(?<![\w.>])(hugeSizeThreshold)\b', r'self->\1', 0, name='field')
+    out.append(t)
+    common.write(ctx, 'locsizerange.inc', '\n'.join(out) + '\n')
+    out = []
+    # ---- LargeObjectCache::putList: groups a list of freed blocks by bin ----
+    s = slice_block(LO_C, r'void LargeObjectCache::putList\(LargeMemoryBlock \*list\)')
+    sliced.append('%s:%d LargeObjectCache::putList' % (LO_C, s.line))
+    t = rw.sub(s.text, r'void LargeObjectCache::putList\(LargeMemoryBlock \*list\)', 'static void LargeObjectCache_putList(LargeObjectCache *self, LargeMemoryBlock *list)', 1, 1, name='sig')
+    t = rw.sub(t, r'extMemPool->backend\.returnLargeObject\(', 'STUB_returnLargeObject(self, ', 0, name='callee stub (hand-over to the back end)')
+    t = rw.sub(t, r'\b(large|huge)Cache\.putList\(extMemPool, ', r'STUB_\1Cache_putList(self, ', 0, name='callee stub (hand-over to a cache: LargeObjectCacheImpl<Props>::putList, jobs loc.impl.*)')
+    t = rw.sub(t, r'(?<![\w.>:])sizeInCacheRange\(', 'LargeObjectCache_sizeInCacheRange(self, ', 0, name='method')
+    t = rw.sub(t, r'(?<![\w.>:])sizeToIdx\(', 'LargeObjectCache_sizeToIdx(', 0, name='method (static)')
+    t = wrap_derefs(rw, t, ['curr', 'tail', 'toProcess', 'b', 'n', 'list'], LMB_FIELDS)
+    t = rw.std(t)
+    t = cxx2c.tag_loops(t, 'locpl', rw, names=[(r'\bcurr\s*=\s*list\b', 'outer'), (r'\bb\s*=\s*toProcess\b', 'inner')])
+    out.append(t)
+    common.write(ctx, 'locputlist.inc', '\n'.join(out) + '\n')
+    # ---- LocalLOCImpl<LOW_MARK, HIGH_MARK>: the thread-local cache of large blocks ----
+    out = []
+    LL = r'class LocalLOCImpl \{'
+    cls = slice_block(FE, LL).text
+    m = re.search(r'static const size_t MAX_TOTAL_SIZE = ([^;]+);', cls)
+    m2 = re.search(r'typedef LocalLOCImpl<(\d+),\s*(\d+)> LocalLOC;', load(FE))
+    if not m or not m2:
+        raise ExtractionBreak('LocalLOCImpl: MAX_TOTAL_SIZE / the LocalLOC typedef changed')
+    out.append('#define MAX_TOTAL_SIZE ((size_t)(%s))\n#define LOW_MARK (%s)\n#define HIGH_MARK (%s)' % (m.group(1).strip(), m2.group(1), m2.group(2)))
+    rw.fired['class-constant / template-arg -> #define'] = 3
+    for pat, what in ((r'LargeMemoryBlock \*tail;', 'tail'), (r'std::atomic<LargeMemoryBlock\*> head;', 'head'), (r'size_t\s+totalSize;', 'totalSize'), (r'int\s+numOfBlocks;', 'numOfBlocks')):
+        if not re.search(pat, cls):
+            raise ExtractionBreak('LocalLOCImpl member %s changed' % what)
+    LLF = r'(?<![\w.>])(tail|head|totalSize|numOfBlocks)\b'
+    for name, sig, csig, ids in (
+            ('put', r'bool LocalLOCImpl<LOW_MARK, HIGH_MARK>::put\(LargeMemoryBlock \*object, ExtMemoryPool \*extMemPool\)', 'static bool LocalLOC_put(LocalLOC *self, LargeMemoryBlock *object, ExtMemoryPool *extMemPool)', ['object', 'localHead', 'tail', 'headToRelease']),
+            ('get', r'LargeMemoryBlock \*LocalLOCImpl<LOW_MARK, HIGH_MARK>::get\(size_t size\)', 'static LargeMemoryBlock *LocalLOC_get(LocalLOC *self, size_t size)', ['curr', 'localHead', 'tail', 'res']),
+            ('externalCleanup', r'bool LocalLOCImpl<LOW_MARK, HIGH_MARK>::externalCleanup\(ExtMemoryPool \*extMemPool\)', 'static bool LocalLOC_externalCleanup(LocalLOC *self, ExtMemoryPool *extMemPool)', ['localHead'])):
+        s = slice_block(FE, sig)
+        sliced.append('%s:%d LocalLOCImpl::%s' % (FE, s.line, name))
+        t = rw.sub(s.text, sig, csig, 1, 1, name='sig')
+        t = rw.sub(t, r'if \(LargeMemoryBlock \*localHead = (head\.exchange\(nullptr\))\) \{', r'{ LargeMemoryBlock *localHead = \1; if (localHead) {', 0, 1, name='decl-in-condition (C grammar)')
+        if name == 'externalCleanup':
+            t = rw.sub(t, r'return true;\s*\}', 'return true; } }', 1, 1, name='decl-in-condition (C grammar): closing brace')
+        t = rw.sub(t, r'extMemPool->freeLargeObjectList\(', 'STUB_freeLargeObjectList(extMemPool, ', 0, name='callee stub (ExtMemoryPool::freeLargeObjectList -> LargeObjectCache::putList: jobs loc.putList.*)')
+        t = wrap_derefs(rw, t, ids, LMB_FIELDS, minc=0)
+        t = rw.atomics(t, ['head'], 1)
+        t = rw.sub(t, LLF, r'self->\1', 1, name='field')
+        t = rw.std(t)
+        t = rw.number_sites(t, 'lloc_' + name, by_kind=True)
+        t = cxx2c.tag_loops(t, 'lloc_' + name, rw, names=[(r'\bwhile\s*\(\s*totalSize|self->totalSize >', 'cut'), (r'\bcurr\s*=\s*localHead\b', 'search')])
+        common.write(ctx, 'llocal_%s.inc' % name, t + '\n')
+    common.write(ctx, 'llocal_consts.inc', out[0] + '\n')
+    # ---- the bins of the global cache: CacheBin (the operations the aggregator runs one at a time), LargeObjectCacheImpl<Props>, LargeObjectCache::put / get ----
+    H = load(LO_H)
+    for pat, what in ((r'LargeMemoryBlock\* first;\s*std::atomic<LargeMemoryBlock\*> last;', 'CacheBin::first/last'), (r'std::atomic<size_t> usedSize;', 'usedSize'), (r'std::atomic<size_t> cachedSize;', 'cachedSize'),
+                      (r'uintptr_t\s+lastCleanedAge;', 'lastCleanedAge'), (r'std::atomic<uintptr_t> oldest;', 'oldest'), (r'CacheBin bin\[numBins\];', 'bin[numBins]')):
+        if not re.search(pat, H):
+            raise ExtractionBreak('large_objects.h: %s changed' % what)
+    BINF = r'(?<![\w.>])(first|last|oldest|lastCleanedAge|ageThreshold|usedSize|cachedSize|meanHitRange|lastGet)\b'
+
+    def bin_method(name, sig, csig):
+        s = slice_block(LO_C, sig)
+        sliced.append('%s:%d LargeObjectCacheImpl<Props>::CacheBin::%s' % (LO_C, s.line, name))
+        t = rw.sub(s.text, sig, csig, 1, 1, name='sig')
+        t = rw.atomics(t, ['last', 'oldest', 'usedSize', 'cachedSize', 'ageThreshold'], 1)
+        t = rw.sub(t, BINF, r'self->\1', 1, name='field')
+        t = rw.sub(t, r'bitMask->set\(', 'STUB_bitMask_set(bitMask, ', 0, name='callee stub (bin occupancy bit)')
+        t, _ = cxx2c.sub_call(t, r'\bMALLOC_ASSERT', lambda m, a: 'MALLOC_ASSERT(%s)' % ', '.join(re.sub(r'\s+', ' ', x) for x in a))
+        t = with_literals_protected(t, lambda x: rw.asserts(x, 0, macro='MALLOC_ASSERT'))
+        return rw.std(t)
+    out = []
+    out.append(bin_method('putList (unsafe)', r'template<typename Props> LargeMemoryBlock \*LargeObjectCacheImpl<Props>::\s*CacheBin::putList\(LargeMemoryBlock \*head, LargeMemoryBlock \*tail, BinBitMask \*bitMask, int idx, int num, size_t hugeSizeThreshold\)',
+                          'static LargeMemoryBlock *CacheBin_putList(CacheBin *self, LargeMemoryBlock *head, LargeMemoryBlock *tail, BinBitMask *bitMask, int idx, int num, size_t hugeSizeThreshold)'))
+    out.append(bin_method('get (unsafe)', r'template<typename Props> LargeMemoryBlock \*LargeObjectCacheImpl<Props>::\s*CacheBin::get\(\)', 'static LargeMemoryBlock *CacheBin_get(CacheBin *self)'))
+    out.append(bin_method('cleanAll (unsafe)', r'template<typename Props> LargeMemoryBlock \*LargeObjectCacheImpl<Props>::\s*CacheBin::cleanAll\(BinBitMask \*bitMask, int idx\)', 'static LargeMemoryBlock *CacheBin_cleanAll(CacheBin *self, BinBitMask *bitMask, int idx)'))
+    common.write(ctx, 'cachebin.inc', '\n'.join(out) + '\n')
+    out = []
+    for pre, cname in (('LargeBS', 'LargeCache'), ('HugeBS', 'HugeCache')):
+        s = slice_block(LO_C, r'void LargeObjectCacheImpl<Props>::putList\(ExtMemoryPool \*extMemPool, LargeMemoryBlock \*toCache\)')
+        if pre == 'LargeBS':
+            sliced.append('%s:%d LargeObjectCacheImpl<Props>::putList' % (LO_C, s.line))
+        t = rw.sub(s.text, r'void LargeObjectCacheImpl<Props>::putList\(ExtMemoryPool \*extMemPool, LargeMemoryBlock \*toCache\)', 'static void %s_putList(LargeObjectCacheImpl *self, ExtMemoryPool *extMemPool, LargeMemoryBlock *toCache)' % cname, 1, 1, name='sig + bind-template(Props)')
+        t = rw.sub(t, r'Props::sizeToIdx\(', pre + '_sizeToIdx(', 0, name='bind-template(Props)')
+        t = rw.sub(t, r'MALLOC_ITT_SYNC_(?:RELEASING|ACQUIRED)\([^;]*\);', 'RG_NOP();', 0, name='itt->RG_NOP')
+        t = rw.sub(t, r'\bbin\[(\w+)\]\.putList\(extMemPool, (\w+), &bitMask, (\w+)\);', r'STUB_bin_putList(self, %s_NumBins, \1, \2, \3);' % pre, 0, name='callee stub (CacheBin::putList through the aggregator: recorder with a bounds obligation on bin[])')
+        out.append(rw.std(t))
+        s = slice_block(LO_C, r'LargeMemoryBlock \*LargeObjectCacheImpl<Props>::get\(ExtMemoryPool \*extMemoryPool, size_t size\)')
+        if pre == 'LargeBS':
+            sliced.append('%s:%d LargeObjectCacheImpl<Props>::get' % (LO_C, s.line))
+        t = rw.sub(s.text, r'LargeMemoryBlock \*LargeObjectCacheImpl<Props>::get\(ExtMemoryPool \*extMemoryPool, size_t size\)', 'static LargeMemoryBlock *%s_get(LargeObjectCacheImpl *self, ExtMemoryPool *extMemoryPool, size_t size)' % cname, 1, 1, name='sig + bind-template(Props)')
+        t = rw.sub(t, r'Props::sizeToIdx\(', pre + '_sizeToIdx(', 0, name='bind-template(Props)')
+        t = rw.sub(t, r'MALLOC_ITT_SYNC_(?:RELEASING|ACQUIRED)\([^;]*\);', 'RG_NOP();', 0, name='itt->RG_NOP')
+        t = rw.sub(t, r'STAT_increment\([^;]*\);', 'RG_NOP();', 0, name='stat->RG_NOP')
+        t = rw.sub(t, r'\bbin\[(\w+)\]\.get\(extMemoryPool, (\w+), &bitMask, (\w+)\)', r'STUB_bin_get(self, %s_NumBins, \1, \2, \3)' % pre, 0, name='callee stub (CacheBin::get through the aggregator: recorder with a bounds obligation on bin[])')
+        out.append(rw.std(t))
+    for name, sig, csig in (('put', r'void LargeObjectCache::put\(LargeMemoryBlock \*largeBlock\)', 'static void LargeObjectCache_put(LargeObjectCache *self, LargeMemoryBlock *largeBlock)'),
+                            ('get', r'LargeMemoryBlock \*LargeObjectCache::get\(size_t size\)', 'static LargeMemoryBlock *LargeObjectCache_get(LargeObjectCache *self, size_t size)')):
+        s = slice_block(LO_C, sig)
+        sliced.append('%s:%d LargeObjectCache::%s' % (LO_C, s.line, name))
+        t = rw.sub(s.text, sig, csig, 1, 1, name='sig')
+        t = rw.sub(t, r'extMemPool->backend\.returnLargeObject\(', 'STUB_returnLargeObject(self, ', 0, name='callee stub (hand-over to the back end)')
+        t = rw.sub(t, r'\b(large|huge)Cache\.putList\(extMemPool, ', lambda m: '%sCache_putList(&self->%sCache, self->extMemPool, ' % (m.group(1).capitalize(), m.group(1)), 0, name='member-object method')
+        t = rw.sub(t, r'\b(large|huge)Cache\.get\(extMemPool, ', lambda m: '%sCache_get(&self->%sCache, self->extMemPool, ' % (m.group(1).capitalize(), m.group(1)), 0, name='member-object method')
+        t = rw.sub(t, r'(?<![\w.>:])sizeInCacheRange\(', 'LargeObjectCache_sizeInCacheRange(self, ', 0, name='method')
+        t = with_literals_protected(t, lambda x: rw.asserts(x, 0, macro='MALLOC_ASSERT'))
+        out.append(rw.std(t))
+    common.write(ctx, 'locimpl.inc', '\n'.join(out) + '\n')
+    # ---- ExtMemoryPool::mallocLargeObject and Backend::getLargeBlock: what a block source hands to getFromLLOCache ----
+    out = []
+    MACL = dict(MAC); MACL.update({'__TBB_MALLOC_LOCACHE_STAT': 0, 'COLLECT_STATISTICS': 0})
+    s = slice_block(BE, r'LargeMemoryBlock \*Backend::getLargeBlock\(size_t size\)')
+    sliced.append('%s:%d Backend::getLargeBlock' % (BE, s.line))
+    t = rw.sub(s.text, r'LargeMemoryBlock \*Backend::getLargeBlock\(size_t size\)', 'static LargeMemoryBlock *Backend_getLargeBlock(ExtMemoryPool *extMemPool, size_t size)', 1, 1, name='sig (Backend::extMemPool passed as parameter)')
+    t = rw.sub(t, r'genericGetBlock\(', 'STUB_genericGetBlock(', 0, name='callee stub (back end: a block of at least num*size bytes or NULL: backend.split / bin.getFromBin)')
+    t = rw.sub(t, r'extMemPool->userPool\(\)', 'STUB_userPool(extMemPool)', 0, name='callee stub')
+    t = rw.sub(t, r'extMemPool->lmbList\.add\(', 'STUB_lmbList_add(extMemPool, ', 0, name='callee stub (list of all large blocks of a user pool: gPrev/gNext links)')
+    t = rw.sub(t, r'/\*needAlignedRes=\*/', '', 0, name='comment')
+    out.append(rw.std(t))
+    s = slice_block(LO_C, r'LargeMemoryBlock \*ExtMemoryPool::mallocLargeObject\(MemoryPool \*pool, size_t allocationSize\)')
+    sliced.append('%s:%d ExtMemoryPool::mallocLargeObject' % (LO_C, s.line))
+    t = cxx2c.cpp_resolve(s.text, MACL, 'mallocLargeObject')
+    t = rw.sub(t, r'LargeMemoryBlock \*ExtMemoryPool::mallocLargeObject\(MemoryPool \*pool, size_t allocationSize\)', 'static LargeMemoryBlock *ExtMemoryPool_mallocLargeObject(ExtMemoryPool *self, MemoryPool *pool, size_t allocationSize)', 1, 1, name='sig')
+    t = rw.sub(t, r'\bloc\.get\(', 'STUB_loc_get(self, ', 0, name='callee stub (LargeObjectCache::get by the contract proved in loc.impl.* / loc.bin.*)')
+    t = rw.sub(t, r'BackRefIdx::newBackRef\(\s*(?:/\*.*?\*/)?\s*(\w+)\)', r'STUB_newBackRef(\1)', 0, name='callee stub (the back-reference table)')
+    t = rw.sub(t, r'\bbackRefIdx\.isInvalid\(\)', 'BackRefIdx_isInvalid(&backRefIdx)', 0, name='method')
+    t = rw.sub(t, r'\bbackend\.getLargeBlock\(', 'Backend_getLargeBlock(self, ', 0, name='member-object method')
+    t = rw.sub(t, r'(?<![\w.>])removeBackRef\(', 'STUB_removeBackRef(', 0, name='callee stub (the back-reference table)')
+    t = rw.sub(t, r'\bloc\.updateCacheState\(', 'STUB_loc_updateCacheState(self, ', 0, name='callee stub (used-size accounting of the bins)')
+    t = rw.sub(t, r'STAT_increment\([^;]*\);', 'RG_NOP();', 0, name='stat->RG_NOP')
+    out.append(rw.std(t))
+    s = slice_block(TI, r'bool isInvalid\(\) const')
+    sliced.append('%s:%d BackRefIdx::isInvalid' % (TI, s.line))
+    t2 = rw.sub(s.text, r'bool isInvalid\(\) const \{ return main == invalid; \}', 'static bool BackRefIdx_isInvalid(const BackRefIdx *self) { return self->main == BackRefIdx_invalid; }', 1, 1, name='sig + field')
+    if not re.search(r'static const main_t invalid = ~main_t\(0\);', load(TI)) or not re.search(r'struct MainIndexSelect \{\s*typedef uint32_t main_type;', load(TI)) \
+            or not re.search(r'typedef MainIndexSelect<4 < sizeof\(uintptr_t\)>::main_type main_t;', load(TI)):
+        raise ExtractionBreak('BackRefIdx::invalid / main_t changed')
+    common.write(ctx, 'mlo_pre.inc', '#define BackRefIdx_invalid (~(uint32_t)0)   /* static const main_t invalid = ~main_t(0); main_t = uint32_t on 64-bit (pattern-checked) */\n' + t2 + '\n')
+    common.write(ctx, 'mlo.inc', '\n'.join(out) + '\n')
+    fired['loc'] = rw.fired
+
+
+def loc_jobs(ctx, CL):
+    nbd = 4 if ctx.tier == 'quick' else 5
+    return [
+        # NOT registered: the loop-contract proof of LargeObjectCache::putList for lists of every length (c17_loc.c, section LOCPL_LC, h_locpl_lc, split by LOCPL_PART) is unfinished:
+        # parts 1-3 discharge, but the frame assumed for the inner-loop step "b joins the group from the middle of the rest" (LOCPL_PART=4) is contradictory, i.e. that step is not
+        # decided yet (the seeded back-link deletion passes it).  Until it is repaired the function is covered by the bounded job below only (see not_decided).
+        Job('loc.putList.bounded', CL, 'h_locpl_bd', route='BD', defines=['LOCPL_BD', 'NBD=%d' % nbd], unwind=nbd + 1, solver='cadical', timeout=2400,
+            target='LargeObjectCache::putList + sizeInCacheRange (lists of <= %d blocks, chains walked; cross-check of loc.putList)' % nbd, source=LO_C,
+            bound_text='lists of at most %d blocks (every combination of sizes and bin indices, every huge-size threshold), loops fully unwound' % nbd,
+            inputs=['IN_n', 'IN_s0', 'IN_s1', 'IN_s2', 'IN_s3', 'IN_s4', 'IN_c0', 'IN_c1', 'IN_c2', 'IN_c3', 'IN_c4', 'IN_thr']),
+        Job('localloc.put', CL, 'h_lloc_put', route='LC', defines=['LLOC_PUT'], loops=True, nloops=1, solver='cadical', timeout=1200,
+            target='LocalLOCImpl<8,32>::put (lists of every length up to 64 blocks)', source=FE, inputs=['IN_n']),
+        Job('localloc.get', CL, 'h_lloc_get', route='LC', defines=['LLOC_GET'], loops=True, nloops=1, solver='cadical', timeout=1200,
+            target='LocalLOCImpl<8,32>::get (lists of every length up to 64 blocks)', source=FE, inputs=['IN_n', 'IN_size']),
+        Job('localloc.cleanup', CL, 'h_lloc_ext', route='RG', defines=['LLOC_EXT'], target='LocalLOCImpl<8,32>::externalCleanup', source=FE, timeout=600),
+        Job('loc.impl', CL, 'h_loc_impl', route='LF', defines=['LOCIMPL'], target='LargeObjectCache::put / get + LargeObjectCacheImpl<Props>::putList / get (Props = large, huge) + sizeInCacheRange + Props::sizeToIdx', source=LO_C, timeout=900,
+            inputs=['IN_s1', 'IN_s2', 'IN_thr']),
+        Job('loc.impl.chain', CL, 'h_loc_impl_chain', route='LF', defines=['LOCIMPL'], target='LargeObjectCacheImpl<Props>::putList on the head of a chain grouped by LargeObjectCache::sizeToIdx', source=LO_C, timeout=900, inputs=['IN_s1', 'IN_s2']),
+        Job('bin.putList', CL, 'h_cbin_putlist', route='LF', defines=['CBIN'], unwind=8, target='LargeObjectCacheImpl<Props>::CacheBin::putList (the aggregated operation)', source=LO_C, timeout=900, inputs=['IN_num', 'IN_shape']),
+        Job('bin.get', CL, 'h_cbin_get', route='LF', defines=['CBIN'], unwind=8, target='LargeObjectCacheImpl<Props>::CacheBin::get (the aggregated operation)', source=LO_C, timeout=900, inputs=['IN_shape']),
+        Job('bin.cleanAll', CL, 'h_cbin_cleanall', route='LF', defines=['CBIN'], unwind=8, target='LargeObjectCacheImpl<Props>::CacheBin::cleanAll (the aggregated operation)', source=LO_C, timeout=900, inputs=['IN_shape']),
+        Job('loc.mallocLargeObject', CL, 'h_mlo', route='LF', defines=['MLO'], target='ExtMemoryPool::mallocLargeObject + Backend::getLargeBlock + BackRefIdx::isInvalid', source=LO_C, timeout=600, inputs=['IN_size']),
+    ]
+
+
 def build(ctx):
     sliced, fired = extract(ctx)
     extract_aligned(ctx, sliced, fired)
     extract_lloc(ctx, sliced, fired)
     extract_pfl(ctx, sliced, fired)
     extract_backend(ctx, sliced, fired)
+    extract_loc(ctx, sliced, fired)
     C = os.path.join(HERE, 'c17.c')
+    CL = os.path.join(HERE, 'c17_loc.c')
     jobs = [
         Job('sizeclass.map', C, 'h_sizeclass', route='LF', defines=['SC'], target='getSmallObjectIndex/getIndexOrObjectSize/getIndex/getObjectSize/highestBitPos', source=FE, timeout=600),
         Job('sizeclass.aligned_case1', C, 'h_aligned_case1', route='LF', defines=['SC'], target='allocateAligned case 1 arithmetic: getObjectSize(alignUp(size,a)) % a == 0', source=FE, timeout=600),
@@ -629,7 +855,7 @@ def build(ctx):
         Job('backend.split', C, 'h_split', route='LF', defines=['BE', 'BE_SPLIT'], target='Backend::splitBlock + toAlignedBin', source=BE, timeout=300, unwind=6),
         Job('backend.coalesce', C, 'h_coalesce', route='RG', defines=['BE', 'BE_COAL'], unwind=8, target='Backend::doCoalesc + FreeBlock::markCoalescing/trySet*Used/set*Free/leftNeig/rightNeig (GuardedSize operations by their proved contracts)', source=BE, timeout=600),
         Job('realloc.small', C, 'h_realloc_small', route='LF', defines=['RA'], target='reallocAligned (slab-object branch)', source=FE, timeout=600),
-    ]
+    ] + loc_jobs(ctx, CL)
     return {
         'jobs': jobs, 'sliced': sliced, 'fired': fired,
         'trusted': ['bsr instruction == index of the highest set bit (VERIF_BSR; cross-checked natively in tv)', 'sizeof(Block) == 128 == 2*estimatedCacheLineSize on x86-64 (static_assert in frontend.cpp gives <=; equality checked natively in tv)',
@@ -641,22 +867,32 @@ def build(ctx):
                     'Log2<N>::value == floor(log2 N), select_size_t_constant picks the 64-bit value, header layouts (BackRefIdx 8, LargeMemoryBlock 88, LargeObjectHdr 16, FreeBlock 56 bytes): cross-checked natively in tv (static_assert against the real classes)',
                     'pfl.*: Block::isOwnedByCurrentThread / markOrphaned stubs; the mailbox lock as a critical section (mailbox written under it only); the mailbox holds slab pointers or NULL',
                     'guard.* / backend.coalesce: boundary-tag rely - a free tag of a block reads the block\'s size on both sides of the border while the other tag is free or held by this thread; sizes found at lock time are prophesied; backend.coalesce uses GuardedSize::tryLock/unlock/makeCoalscing by the contracts proved in guard.*; CoalRequestQ::putBlock and removeBlockFromBin are recorders',
-                    'backend.split: coalescAndPut / initHeader / markBlocks are recorders; preconditions are the checks IndexedBins::getFromBin makes before it chooses a block (not sliced), num == 1 or size == slabSize'],
+                    'backend.split: coalescAndPut / initHeader / markBlocks are recorders; preconditions are the checks IndexedBins::getFromBin makes before it chooses a block (not sliced), num == 1 or size == slabSize',
+                    'loc.putList.bounded: Backend::returnLargeObject and LargeObjectCacheImpl<Props>::putList are recorders that walk the chain they get; LargeObjectCache::sizeToIdx by contract (a function of the size; index < LargeBS::NumBins exactly below maxLargeSize)',
+                    'localloc.*: ExtMemoryPool::freeLargeObjectList is a recorder; rely on the shared head word: other threads only take the whole list (non-NULL -> NULL), only the owner thread calls put/get; blocks in a local cache have minLargeSize <= unalignedSize <= MAX_TOTAL_SIZE (put refuses bigger ones); the prefix sums PS[] of the block sizes are a definitional ghost array (instances of the recurrence at the blocks looked at); the block where the tail cut stops is prophesied',
+                    'loc.impl*: CacheBin::putList / get (through the aggregator) are recorders with a bounds obligation on bin[]; sizes are bin sizes (alignToBin fixed points in [minLargeSize, maxHugeSize)): LargeMemoryBlock::unalignedSize is only written with such values (getLargeBlock: loc.mallocLargeObject, Backend::remap: C18)',
+                    'bin.*: the aggregator runs these operations one at a time (atomics of the bin read as plain fields); the bin satisfies its representation invariant on entry; chains of 1, 2, 3 and 1000 blocks (num is a constant per call: a product of two symbolic 64-bit operands is out of SAT reach); BitMask::set is a recorder',
+                    'loc.mallocLargeObject: LargeObjectCache::get by the contract loc.impl / bin.get establish (NULL or a block whose size record equals the request and whose back-reference index is the one it was allocated with); BackRefIdx::newBackRef / removeBackRef, genericGetBlock, AllLargeBlocksList::add, updateCacheState are stubs / recorders'],
         'drops': ['namespace-scope const -> #define', 'MALLOC_ASSERT -> proof obligation', 'STAT_increment / ITT / do_yield / suppress_unused_warning -> RG_NOP()', 'template<bool>, template<MemoryOrigin> -> parameter', '#if chains resolved for x86-64 linux (BACKEND_HAS_MREMAP=1, FREELIST_NONBLOCKING=1, MALLOC_CHECK_RECURSION=1)',
                   'loads/stores of FreeObject::next, LargeMemoryBlock/LargeObjectHdr fields (lloc.*), FreeBlock fields (backend.*) -> accessor macros over ghost memory (blocks at arbitrary integer addresses)',
                   'dereference(&header->backRefIdx) -> HDR_RD in the accessor rendering of isLargeObject (lloc.place.*)', 'label before a declaration gets an empty statement; a declaration inside an if-condition is hoisted (C grammar)',
-                  'the tail of freePublicObject is cut in job free.public (the whole function is job pfl.push)', 'empty(): assertion on the cross-thread accounting dropped (free.own)'],
+                  'the tail of freePublicObject is cut in job free.public (the whole function is job pfl.push)', 'empty(): assertion on the cross-thread accounting dropped (free.own)',
+                  'loc.putList.* / localloc.*: field accesses through LargeMemoryBlock pointers -> LMB_RD(p, f) / LMB_WR(p, f, v) (typed ghost memory keyed by the block, pointers checked to be blocks of the list); template arguments of LocalLOCImpl<8,32> and class constants -> #define; `if (T *x = e)` -> declaration + if (C grammar); Props::f -> LargeBS_f / HugeBS_f (both instantiations)'],
         'not_decided': ['the callers of privatizePublicFreeList (Bin::getPrivatizedFreeListBlock, cleanPublicFreeLists, privatizeOrphaned, OrphanedBlocks::cleanup) are not sliced: that they establish its precondition (slab out of the mailbox / orphaned, no notifier under way) is assumed; adoption of an orphan (privatizeOrphaned) and the LifoList of orphans',
                         'the accounting invariant "publicly freed objects are still counted in allocatedCount; objects on the free list are not" is assumed at privatize / pop, not derived globally',
                         'internalPoolMalloc as a whole (search order active slab / mailbox / orphan / new slab), Block::allocate, restoreBumpPtr, initEmptyBlock, StartupBlock',
-                        'LocalLOC put/get list surgery, LargeObjectCacheImpl bins (aggregator, ages, cleanup), ExtMemoryPool::mallocLargeObject, Backend::genericGetBlock / getFromBin / coalescAndPutList loop / releaseRegion / regions, BackRef table',
+                        'LargeObjectCache::putList for lists of more than 4 (thorough: 5) blocks: only the bounded job loc.putList.bounded decides it; the loop-contract proof for every length (c17_loc.c, section LOCPL_LC: ghost-index invariants over index-encoded links, split by execution class) is written but not registered - its inner-loop step for a block unlinked from the middle of the rest is vacuous as it stands',
+                        'the aggregator side of the global cache: CacheBinFunctor / OperationPreprocessor (merging of put lists and gets, the pass that rebuilds the prev links and counts a chain, ages and hit statistics), CacheBin::putList(ExtMemoryPool*, ...) placing the operation record behind the block header, ExecuteOperation, CacheBin::cleanToThreshold (list walk by age), regularCleanup / bit masks, usedSize accounting; that every chain handed to CacheBin::putList has head->prev == NULL, the stated length and blocks of one size is the contract between loc.putList.* / the functor and bin.putList, not a theorem',
+                        'LargeObjectCache::sizeToIdx is used as "a function of the size" in loc.putList.bounded (its real text: lloc.bins); LocalLOC lists longer than 64 blocks (the class never holds 32); which of several cached blocks of the right size LocalLOC::get returns is not constrained',
+                        'Backend::genericGetBlock / getFromBin / coalescAndPutList loop / releaseRegion / regions, BackRef table',
                         'doCoalesc is proved per call with prophesied neighbour sizes; that the blocks of a region always tile it (global boundary-tag invariant) is the rely, not a theorem', 'mremap-based realloc (remap)', 'never writes into a live block (global)', 'scalable_calloc zero-fill',
                         'memory orders weaker than SC (publicFreeList / nextPrivatizable / guard words use acquire/release/relaxed)', 'termination of the spin in shareOrphaned and of the CAS loops'],
         'assumptions': ['slab objects are placed at multiples of objectSize from the slab end (established by allocateFromBumpPtr: proved; preserved by the free lists: every address pushed by freeOwnObject / freePublicObject is proved to be such a start; popped unchanged: freelist.pop, pfl.privatize)',
                         'a pointer passed to free is the start of a live slab object, or (fitting bins only) an address inside it aligned to 2*fittingAlignment - what allocateAligned hands out (now proved: aligned.slab)',
                         'alignment passed to allocateAligned is a power of two (validated by the entry points: C18)', 'addresses below 2^47 (user half of the x86-64 address space) in lloc.place.* / backend.*; block sizes below 2^44..2^46',
                         'pfl.*: the slab is not adopted by a new owner during one call (adoption needs nextPrivatizable == UNUSABLE, which excludes a notifier under way); sequentially consistent atomics',
-                        'a public free list / private free list is a well-formed chain (no cycle) of objects'],
+                        'a public free list / private free list is a well-formed chain (no cycle) of objects',
+                        'loc.putList.bounded / localloc.*: the input list is a null-terminated chain of pairwise distinct blocks, doubly linked except for the head\'s prev (LocalLOC::put leaves the kept tail there); WLOG it runs through the block array in order'],
     }
 
 def tv(ctx):
